@@ -417,7 +417,14 @@ def m_str(E, a, kw):
     if isinstance(v, VBV):
         return format_value(E, v, lift(''))
     if isinstance(v, VBool):
-        raise Unsupported('str(bool)')
+        bl = bool_lit(v.t)
+        if bl is None:
+            raise Unsupported('str(symbolic bool)')
+        return seq_lit('str', 'True' if bl else 'False')
+    if v is NONE:
+        return seq_lit('str', 'None')
+    if isinstance(v, (VFunc, VClass, VModule)):
+        return seq_lit('str', '<%s>' % type(v).__name__)
     if isinstance(v, VOpaque) and v.sort_name == 'datetime':
         from . import models_iso
         return models_iso.str_of_datetime(E, v)
@@ -1573,3 +1580,8 @@ def m_dw_rows(E, a, kw):
 @model('collections.Counter')
 def m_counter(E, a, kw):
     raise Unsupported('collections.Counter')
+
+
+@model('logging.basicConfig')
+def m_basicconfig(E, a, kw):
+    return NONE
